@@ -42,7 +42,7 @@ pub fn merged_min_delay(m: &MergedSpec) -> f64 {
         .min(f64::MAX)
 }
 
-fn kf_value(k: &KfSpec, prop: usize) -> Option<PropVal> {
+pub fn kf_value(k: &KfSpec, prop: usize) -> Option<PropVal> {
     match prop {
         0 => k.a.map(PropVal::F),
         1 => k.b.map(PropVal::F),
@@ -110,6 +110,64 @@ pub fn get_prop(v: &Vals, prop: usize) -> PropVal {
         1 => PropVal::F(v.b),
         2 => PropVal::I(v.n as i64),
         _ => PropVal::I(v.k as i64),
+    }
+}
+
+/// Tolerance, in units of f32::EPSILON x (largest magnitude involved), for values observed while
+/// the evaluation time is within a rounding or two of an off-grid end instant: one rounding of the
+/// time (1e-7 of the normalised position) moves a value by at most 5e-4 of the interpolated range
+/// under the steepest built-in curve (the circular easings are vertical at one end: sqrt(2e-7));
+/// 2e-3 leaves room for that and still is three orders of magnitude below "back at the start
+/// values".
+pub const BAND_ULPS: f32 = 16384.0;
+
+/// `actual` equals `expected` within the float-rounding band tolerance (`BAND_ULPS`); integers
+/// within the same relative tolerance, at least 1.
+pub fn close_within_band(m: &MergedSpec, prop: usize, actual: PropVal, expected: PropVal, extra: PropVal) -> bool {
+    match (actual, expected) {
+        (PropVal::F(_), PropVal::F(_)) => {
+            let e = match extra {
+                PropVal::F(e) => e,
+                _ => 0.0,
+            };
+            prop_close(actual, expected, float_scale(m, prop, e), BAND_ULPS)
+        }
+        (PropVal::I(x), PropVal::I(y)) => {
+            let mut scale = (x.abs()).max(y.abs()) as f64;
+            if let PropVal::I(e) = extra {
+                scale = scale.max((e as f64).abs());
+            }
+            for p in &m.parts {
+                for k in &p.kfs {
+                    if let Some(PropVal::I(v)) = kf_value(k, prop) {
+                        scale = scale.max((v as f64).abs());
+                    }
+                }
+            }
+            ((x - y).abs() as f64) <= (BAND_ULPS as f64 * f32::EPSILON as f64 * scale).max(1.0)
+        }
+        _ => false,
+    }
+}
+
+/// Does some component approach its end instant through a (near-)discontinuity: the staircase
+/// easing, or a keyframe a hair away from the terminal position? Then the value one rounding
+/// before the end instant legitimately is far from the terminal value.
+pub fn steep_end(m: &MergedSpec) -> bool {
+    m.parts.iter().any(|p| {
+        p.uses_easing(CUSTOM_STEPS)
+            || (p.reverse && p.kfs.iter().any(|k| k.pos > 0.0 && k.pos < 1e-4))
+            || (!p.reverse && p.kfs.iter().any(|k| k.pos < 1.0 && k.pos > 1.0 - 1e-4))
+    })
+}
+
+pub fn set_prop(v: &mut Vals, prop: usize, x: PropVal) {
+    match (prop, x) {
+        (0, PropVal::F(x)) => v.a = x,
+        (1, PropVal::F(x)) => v.b = x,
+        (2, PropVal::I(x)) => v.n = x as i32,
+        (3, PropVal::I(x)) => v.k = x as u8,
+        _ => {}
     }
 }
 
